@@ -520,13 +520,15 @@ func (s *state) visitForRange(node *ast.ForNode) {
 		limit = rangeNode.Args[0]
 	}
 
+	// the arguments of range() are not in the scope of the loop variable.
+	var limitJs, initJs, incrementJs = s.block(limit), s.block(init), s.block(increment)
 	var varIndex,
 		varLimit = s.scope.pushForRange(node.Var)
 	defer s.scope.pop()
-	s.jsln("var ", varLimit, " = ", limit, ";")
-	s.jsln("for (var ", varIndex, " = ", init, "; ",
+	s.jsln("var ", varLimit, " = ", limitJs, ";")
+	s.jsln("for (var ", varIndex, " = ", initJs, "; ",
 		varIndex, " < ", varLimit, "; ",
-		varIndex, " += ", increment, ") {")
+		varIndex, " += ", incrementJs, ") {")
 	s.indentLevels++
 	s.walk(node.Body)
 	s.indentLevels--
@@ -534,12 +536,14 @@ func (s *state) visitForRange(node *ast.ForNode) {
 }
 
 func (s *state) visitForeach(node *ast.ForNode) {
+	// only the loop body is in the scope of the loop variable: neither the list
+	// expression nor the {ifempty} block is.
+	var listJs = s.block(node.List)
 	var itemData,
 		itemList,
 		itemListLen,
 		itemIndex = s.scope.pushForEach(node.Var)
-	defer s.scope.pop()
-	s.jsln("var ", itemList, " = ", node.List, ";")
+	s.jsln("var ", itemList, " = ", listJs, ";")
 	s.jsln("var ", itemListLen, " = ", itemList, ".length;")
 	if node.IfEmpty != nil {
 		s.jsln("if (", itemListLen, " > 0) {")
@@ -551,6 +555,7 @@ func (s *state) visitForeach(node *ast.ForNode) {
 	s.walk(node.Body)
 	s.indentLevels--
 	s.jsln("}")
+	s.scope.pop()
 	if node.IfEmpty != nil {
 		s.indentLevels--
 		s.jsln("} else {")
